@@ -44,6 +44,11 @@ Proof.
     + split; [|reflexivity]. intros _ x [<-|Hx]; [exact E|]. now apply (proj1 IH).
 Qed.
 
+Ltac dmatch E :=
+  match goal with
+  | |- context [match ?x with Some _ => _ | None => _ end] => destruct x eqn:E
+  end.
+
 Section C12.
   Context {A : Type} (eqb : A -> A -> bool) (ancb : A -> A -> bool).
   Hypothesis eqb_spec : forall x y, eqb x y = true <-> x = y.
@@ -271,7 +276,7 @@ Section C12.
       assert (ai < length (adds c))%nat by (apply nth_error_Some; congruence).
       assert (j < length (adds c))%nat by (apply nth_error_Some; congruence).
       unfold adds in *. lia. }
-    destruct (msr_adds_removes c ri ai Hodd Hlen) as (EA & ER & EL).
+    destruct (msr_adds_removes c ri ai Hodd Hlen) as (EA & ER & EL). unfold term in EA, ER, EL.
     exists aid, r, a'. constructor.
     - split; [exact Hlen|exact EL].
     - rewrite EL. now apply odd_minus2.
@@ -387,8 +392,9 @@ Section C12.
     cbn [non_trivial]. destruct (find_pair c) as [[ri ai]|] eqn:E; [|now apply covered_self].
     destruct (step_facts c ri ai Hodd E) as (aid & r & a' & SF).
     pose proof (sf_odd _ _ _ _ _ SF) as Ho'. destruct (sf_other _ _ _ _ _ SF) as [Ia' Hle].
-    apply (Permutation_in _ (sf_adds _ _ _ _ _ SF)) in Hin as [<-|Hin].
-    - destruct (IH _ Ho' (Some a') Ia') as (x' & Ix & Lx). exists x'. split; [exact Ix|].
+    pose proof (Permutation_in _ (sf_adds _ _ _ _ _ SF) Hin) as Hin'.
+    destruct Hin' as [Heq|Hin'].
+    - subst t. destruct (IH _ Ho' (Some a') Ia') as (x' & Ix & Lx). exists x'. split; [exact Ix|].
       eapply le_trans; eauto.
     - now apply IH.
   Qed.
@@ -427,9 +433,9 @@ Section C12.
                /\ Forall (justified (nt fuel c)) ds.
   Proof.
     induction fuel as [|f IH]; intros c Hodd.
-    - exists []. cbn. split; [intros; lia|constructor].
+    - exists []. cbn [non_trivial drops_den]. split; [intros; lia|constructor].
     - cbn [non_trivial]. destruct (find_pair c) as [[ri ai]|] eqn:E.
-      2:{ exists []. cbn. split; [intros; lia|constructor]. }
+      2:{ exists []. cbn [drops_den]. split; [intros; lia|constructor]. }
       destruct (step_facts c ri ai Hodd E) as (aid & r & a' & SF).
       pose proof (sf_odd _ _ _ _ _ SF) as Ho'. destruct (sf_other _ _ _ _ _ SF) as [Ia' Hle].
       destruct (IH _ Ho') as (ds & D & J). exists ((r, aid) :: ds). split.
@@ -479,7 +485,8 @@ Section C12.
   Proof.
     intros Hl Hb Hr. unfold flat_simplified.
     destruct (simplify_arity teqb teqb_spec (flatten [l; b; r])) as [E _].
-    rewrite <- Nat.negb_even, E, Nat.negb_even. now apply flatten3_odd.
+    pose proof (flatten3_odd l b r Hl Hb Hr) as F. unfold target, term in *.
+    rewrite <- Nat.negb_even in F |- *. now rewrite E.
   Qed.
 
   Lemma flat_simplified_den (l b r : list T) v :
@@ -502,15 +509,27 @@ Section C12.
   Lemma mrt_no_invention (l b r : list T) t :
     odd l -> odd b -> odd r -> In t (mrt l b r) -> In t l \/ In t b \/ In t r.
   Proof.
-    intros Hl Hb Hr. unfold merge_ref_targets.
-    destruct (trivial_merge (target_eqb eqb) true [l; b; r]) as [res|] eqn:E1.
+    intros Hl Hb Hr. unfold merge_ref_targets, target, term.
+    destruct (trivial_merge _ true [l; b; r]) as [res|] eqn:E1.
     - destruct (whole_trivial _ _ _ _ E1) as [[_ ->]|[[_ ->]|[_ ->]]]; auto.
     - pose proof (flat_simplified_odd l b r Hl Hb Hr) as Ho.
       assert (Hm : forall t, In t (flat_simplified eqb l b r) -> In t l \/ In t b \/ In t r).
       { intros u Hu. apply in_flatten3. eapply in_simplify; [|exact Hu]. now apply flatten3_odd. }
-      cbv zeta. destruct (trivial_merge teqb true (flat_simplified eqb l b r)) as [v|] eqn:E2.
+      cbv zeta. dmatch E2.
       + intros [<-|[]]. apply Hm. now apply trivial_in.
       + intros H. apply Hm. eapply nt_incl; eauto.
+  Qed.
+
+  Lemma mrt_nontrivial (l b r : list T) :
+    trivial_merge (target_eqb eqb) true [l; b; r] = None ->
+    trivial_merge teqb true (flat_simplified eqb l b r) = None ->
+    mrt l b r = nt (length (flat_simplified eqb l b r)) (flat_simplified eqb l b r).
+  Proof.
+    unfold merge_ref_targets. intros H1 H2. dmatch E1.
+    { exfalso. first [discriminate|pose proof (eq_trans (eq_sym E1) H1) as X; discriminate X]. }
+    cbv zeta. dmatch E2.
+    { exfalso. first [discriminate|pose proof (eq_trans (eq_sym E2) H2) as X; discriminate X]. }
+    reflexivity.
   Qed.
 
   (** * fast-forward *)
@@ -551,27 +570,26 @@ Section C12.
     { intros <-. cbn in Hb. apply Nxy. now apply HA. }
     assert (Ayx : ancb y x = false).
     { destruct (ancb y x) eqn:E; [|reflexivity]. exfalso. apply Nxy. now apply HA. }
+    assert (TN : forall u v : T, u <> v -> teqb u v = false).
+    { intros u v H. destruct (teqb u v) eqn:E; [|reflexivity]. now apply teqb_spec in E. }
+    assert (LN : forall u v : list T, u <> v -> target_eqb eqb u v = false).
+    { intros u v H. destruct (target_eqb eqb u v) eqn:E; [|reflexivity]. now apply target_eqb_spec in E. }
     assert (W1 : trivial_merge (target_eqb eqb) true [[Some x]; [b0]; [Some y]] = None).
-    { cbn. rewrite (eqb_neq _ _ Nxy). cbn.
-      destruct (teqb (Some x) b0) eqn:E1; [apply teqb_spec in E1; congruence|].
-      destruct (teqb (Some y) b0) eqn:E2; [apply teqb_spec in E2; congruence|]. reflexivity. }
+    { cbn [trivial_merge]. rewrite !LN by congruence. reflexivity. }
     assert (W2 : trivial_merge (target_eqb eqb) true [[Some y]; [b0]; [Some x]] = None).
-    { cbn. rewrite (eqb_neq _ _ Nyx). cbn.
-      destruct (teqb (Some y) b0) eqn:E1; [apply teqb_spec in E1; congruence|].
-      destruct (teqb (Some x) b0) eqn:E2; [apply teqb_spec in E2; congruence|]. reflexivity. }
-    unfold merge_ref_targets. rewrite W1, W2. unfold flat_simplified.
-    change (flatten [[Some x]; [b0]; [Some y]]) with [Some x; b0; Some y].
-    change (flatten [[Some y]; [b0]; [Some x]]) with [Some y; b0; Some x].
-    rewrite !simplify3_distinct by auto. cbv zeta.
+    { cbn [trivial_merge]. rewrite !LN by congruence. reflexivity. }
+    assert (F1 : flat_simplified eqb [Some x] [b0] [Some y] = [Some x; b0; Some y]).
+    { unfold flat_simplified. change (flatten [[Some x]; [b0]; [Some y]]) with [Some x; b0; Some y].
+      now apply simplify3_distinct. }
+    assert (F2 : flat_simplified eqb [Some y] [b0] [Some x] = [Some y; b0; Some x]).
+    { unfold flat_simplified. change (flatten [[Some y]; [b0]; [Some x]]) with [Some y; b0; Some x].
+      now apply simplify3_distinct. }
     assert (T1 : trivial_merge teqb true [Some x; b0; Some y] = None).
-    { cbn. rewrite (eqb_neq _ _ Nxy). cbn.
-      destruct (teqb (Some x) b0) eqn:E1; [apply teqb_spec in E1; congruence|].
-      destruct (teqb (Some y) b0) eqn:E2; [apply teqb_spec in E2; congruence|]. reflexivity. }
+    { cbn [trivial_merge]. rewrite !TN by congruence. reflexivity. }
     assert (T2 : trivial_merge teqb true [Some y; b0; Some x] = None).
-    { cbn. rewrite (eqb_neq _ _ Nyx). cbn.
-      destruct (teqb (Some y) b0) eqn:E1; [apply teqb_spec in E1; congruence|].
-      destruct (teqb (Some x) b0) eqn:E2; [apply teqb_spec in E2; congruence|]. reflexivity. }
-    rewrite T1, T2. split.
+    { cbn [trivial_merge]. rewrite !TN by congruence. reflexivity. }
+    rewrite <- F1 in T1. rewrite <- F2 in T2.
+    rewrite (mrt_nontrivial _ _ _ W1 T1), (mrt_nontrivial _ _ _ W2 T2), F1, F2. split.
     - cbn [length non_trivial]. unfold find_pair_to_remove.
       cbn [adds removes evens odds enumerate_from find_outer find_inner pick].
       rewrite (eqb_neq _ _ Nxy), Hxy. cbn [position]. rewrite Hb. reflexivity.
@@ -602,22 +620,23 @@ Section C12.
   Lemma mrt_outcome (l b r : list T) :
     Trans -> odd l -> odd b -> odd r -> Outcome l b r (mrt l b r).
   Proof.
-    intros HT Hl Hb Hr. unfold Outcome, merge_ref_targets.
-    destruct (trivial_merge (target_eqb eqb) true [l; b; r]) as [res|] eqn:E1.
+    intros HT Hl Hb Hr. unfold Outcome, merge_ref_targets, target, term.
+    destruct (trivial_merge _ true [l; b; r]) as [res|] eqn:E1.
     { destruct (whole_trivial _ _ _ _ E1) as [H|[H|H]]; auto. }
     right. right. right.
     pose proof (flat_simplified_odd l b r Hl Hb Hr) as Ho.
     pose proof (fun v => flat_simplified_den l b r v Hl Hb Hr) as Hden.
     cbv zeta. set (m := flat_simplified eqb l b r) in *.
-    destruct (trivial_merge teqb true m) as [v|] eqn:E2.
-    - left. exists v. split; [reflexivity|].
+    dmatch E2.
+    - left. match type of E2 with _ = Some ?v => exists v end. split; [reflexivity|].
       apply (trivial_merge_spec teqb teqb_spec) in E2; [|exact Ho].
       eapply (Resolves_ext teqb); [|exact E2]. intros u. unfold m, flat_simplified.
       apply (simplify_den teqb teqb_spec).
     - right. destruct (nt_den HT (length m) m Ho) as (ds & D & J). exists ds.
       split; [intros v; rewrite <- Hden; apply D|]. split; [exact J|]. split.
       + intros t Hpos. rewrite <- Hden in Hpos. apply nt_cover; auto.
-        apply count_pos_in. rewrite den_count in Hpos. pose proof (count_nonneg t (removes m)). lia.
+        apply count_pos_in. pose proof (den_count m t) as DC.
+        pose proof (count_nonneg t (removes m)) as CN. unfold target, term in *. lia.
       + apply nt_stuck; auto. lia.
   Qed.
 End C12.
